@@ -39,6 +39,11 @@ def ident_rol_vol(k, out): return table_names(out) == [f"P{k}"]
 def ident_rol_perf(k, out): return table_names(out) == [f"Qq_patch{k}", f"Smp{k}"]
 
 
+def orphaned(case: dict) -> dict:
+    case["img"]["vols"][0]["perfs"] = []          # the volume stays, its performances become orphans
+    return case
+
+
 def plans(thorough: bool) -> List[Plan]:
     A, X, Q = naming.AKAI_POOL, naming.ASCII_POOL, naming.CUE_POOL
     def img(data):
@@ -59,6 +64,9 @@ def plans(thorough: bool) -> List[Plan]:
              lambda names, seed: img(rw.build_image(naming.roland_dirs_case(names, "volume"), seed)), [""], ident_rol_vol),
         Plan("roland performances", X[:18] if thorough else X[6:17], True, False, "other",
              lambda names, seed: img(rw.build_image(naming.roland_dirs_case(names, "performance"), seed)), ["Vol/"], ident_rol_perf),
+        # performances no volume refers to: listed under the pseudo-volume the tool makes up for them
+        Plan("roland orphan performances", X[:18] if thorough else X[:7] + X[9:13], True, False, "other",
+             lambda names, seed: img(rw.build_image(orphaned(naming.roland_dirs_case(names, "performance")), seed)), ["_Orphan_perf/"], ident_rol_perf),
         Plan("cdda titles", Q[:18] if thorough else Q[4:15], False, True, "other",
              lambda names, seed: (lambda w: cue.write_pair(w, cue.render(naming.cue_lines(names)[0], 0, seed), naming.cue_lines(names)[1], seed)[0]),
              [""], ident_cdda),
@@ -156,7 +164,7 @@ def run(chk: Check):
     for plan, pool, k in todo:
         res = chk.run_model(naming.model(pool, k, plan.is_dir, plan.kind, no_combine=plan.nocomb),
                             label=f"design: {plan.label}, <= {k} of {len(plan.pool)} names", timeout_s=3000)
-        picked = naming.pick(res.cases, budget, chk.seed + 5)
+        picked = naming.pick(res.cases, budget if plan.label != "roland orphan performances" or thorough else 12, chk.seed + 5)
         if k == 3 and len(pool) == 4:        # the edge-character pool: everything
             picked = res.cases
         if k == 4 and len(pool) <= 5:        # targeted pool: every 4-sibling sequence with two duplicate groups, unstrided
